@@ -3,6 +3,40 @@ from checks import regioncommon as rc
 
 REQUIRED = [
     "Pixman.Props.C05.splitBand_append",
+    "Pixman.Props.C05.interO_inSpans",
+    "Pixman.Props.C05.interO_yExtent",
+    "Pixman.Props.C05.interO_spansSep",
+    "Pixman.Props.C05.unionO_inSpans",
+    "Pixman.Props.C05.unionO_yExtent",
+    "Pixman.Props.C05.unionO_spansSep",
+    "Pixman.Props.C05.subO_inSpans",
+    "Pixman.Props.C05.subO_yExtent",
+    "Pixman.Props.C05.subO_spansSep",
+    "Pixman.Props.C05.overlapO_inSpans",
+    "Pixman.Props.C05.overlapO_yExtent",
+    "Pixman.Props.C05.overlapO_spansSep",
+    "Pixman.Props.C05.pixmanOpRects_union",
+    "Pixman.Props.C05.pixmanOpRects_inter",
+    "Pixman.Props.C05.pixmanOpRects_sub",
+    "Pixman.Props.C05.pixmanOpRects_canon",
+    "Pixman.Props.C05.sweep_fuel_enough",
+    "Pixman.Props.C05.union_exact",
+    "Pixman.Props.C05.intersect_exact",
+    "Pixman.Props.C05.subtract_exact",
+    "Pixman.Props.C05.inverse_exact",
+    "Pixman.Props.C05.unionRect_exact",
+    "Pixman.Props.C05.intersectRect_exact",
+    "Pixman.Props.C05.rectBox_exact",
+    "Pixman.Props.C05.copy_exact",
+    "Pixman.Props.C05.reset_exact",
+    "Pixman.Props.C05.clear_exact",
+    "Pixman.Props.C05.initRect_exact",
+    "Pixman.Props.C05.initWithExtents_exact",
+    "Pixman.Props.C05.setExtents_exact",
+    "Pixman.Props.C05.sortRects_spec",
+    "Pixman.Props.C05.validateRects_exact",
+    "Pixman.Props.C05.initRects_exact",
+    "Pixman.Props.C05.initRects_union_of_good",
 ]
 
 
